@@ -302,8 +302,10 @@ def load_known():
 
 
 def sig_matches(pattern, sig):
-    if pattern.endswith("*"):
-        return sig.startswith(pattern[:-1])
+    """exact match, or shell-style pattern with * and ? when the entry uses wildcards ([ is literal)"""
+    if "*" in pattern or "?" in pattern:
+        import fnmatch
+        return fnmatch.fnmatchcase(sig, pattern.replace("[", "[[]"))
     return pattern == sig
 
 
@@ -480,7 +482,11 @@ def run_check(prop, spec, tier, seed, replay=None):
     for sig, vs in sorted(viol_by_sig.items()):
         k = [f for f in known if f.get("status", "known") == "known" and f["property"] == prop and sig_matches(f["signature"], sig)]
         if k:
-            known_hits.append((sig, k[0], len(vs)))
+            prev = [h for h in known_hits if h[1] is k[0]]
+            if prev:
+                known_hits[known_hits.index(prev[0])] = (prev[0][0], k[0], prev[0][2] + len(vs))
+            else:
+                known_hits.append((k[0]["signature"], k[0], len(vs)))
         else:
             new_viol.append((sig, vs))
     wall = time.time() - t0
